@@ -19,6 +19,7 @@ use serde_json::json;
 
 use crate::comp::{self, Config, Inl, Plugins};
 use crate::frontend::{guarded, install_panic_hook, panic_sig};
+use crate::rng::Rng;
 use crate::report::{Ctx, ShardResult};
 use crate::rng::fnv_str;
 
@@ -319,8 +320,18 @@ pub fn c18_worker(ctx: &mut Ctx) {
     }
     ctx.flush();
     // Compiled snippets with raw ids, under two configurations.
-    let cases = crate::execchecks::snippet_cases();
-    let cfgs = [Config::DEFAULT, Config { opt: Some((Inl::Avoid, true)), ..Config::DEFAULT }];
+    let mut cases = crate::execchecks::snippet_cases();
+    // Generated programs: user types, tuples, options, arrays, loops (generated function names).
+    for i in 0..ctx.tier.pick(60u64, 800) {
+        let mut rng = Rng::derive(ctx.seed, &[1, i]);
+        if let Ok((program, _)) = guarded(|| crate::pgen::generate(&mut rng)) {
+            cases.push((format!("generated-program#{i}"), crate::pgen::render_program(&program)));
+        }
+    }
+    let cfgs: Vec<Config> = ctx.tier.pick(
+        vec![Config::DEFAULT, Config { opt: Some((Inl::Avoid, true)), ..Config::DEFAULT }],
+        vec![Config::DEFAULT, Config { opt: Some((Inl::Avoid, true)), ..Config::DEFAULT }, Config::DISABLED, Config { opt: Some((Inl::Small(5000), false)), ..Config::DEFAULT }],
+    );
     let sstep = ctx.tier.pick(2usize, 1usize);
     let work: Vec<(&(String, String), &Config)> = cases
         .iter()
@@ -353,6 +364,22 @@ pub fn c18_worker(ctx: &mut Ctx) {
     for r in results {
         ctx.absorb(r);
     }
+    ctx.flush();
+    // Thorough: the whole corelib test suite as one program (every libfunc family the corelib uses).
+    if ctx.tier == crate::report::Tier::Thorough {
+        for cfg in [Config::DEFAULT, Config::DISABLED] {
+            match guarded(|| crate::w2::compile_corelib_tests(&cfg)) {
+                Ok(Ok(suite)) => {
+                    let mut acc = ShardResult::default();
+                    check_program(&mut acc, &format!("corelib test suite [{}]", cfg.name()), &suite.prog.program, None, &json!({"kind": "corelib-suite", "cfg": cfg}));
+                    ctx.count("corelib_suite_statements", suite.prog.program.statements.len() as u64);
+                    ctx.absorb(acc);
+                }
+                Ok(Err(e)) => ctx.inconclusive(&format!("corelib test suite does not compile: {}", e.chars().take(80).collect::<String>())),
+                Err((loc, msg)) => ctx.inconclusive(&format!("corelib test suite compile panicked: {}", panic_sig(&loc, &msg))),
+            }
+        }
+    }
 }
 
 pub fn c18_replay(case: &serde_json::Value) -> Result<Option<String>, String> {
@@ -372,6 +399,11 @@ pub fn c18_replay(case: &serde_json::Value) -> Result<Option<String>, String> {
             let starknet = name.contains("libfuncs/starknet") || code.contains("starknet::");
             let (named, raw) = compile_both(&cfg, starknet, code)?;
             check_program(&mut acc, name, &named, Some(&raw), case);
+        }
+        "corelib-suite" => {
+            let cfg: Config = serde_json::from_value(case["cfg"].clone()).map_err(|e| e.to_string())?;
+            let suite = crate::w2::compile_corelib_tests(&cfg)?;
+            check_program(&mut acc, "corelib test suite", &suite.prog.program, None, case);
         }
         k => return Err(format!("unknown replay kind {k}")),
     }
